@@ -94,6 +94,12 @@ def extract(repo, failures):
     d["convertBeforeGate"] = 0 <= i_conv < i_gate and bool(re.search(
         r"if\s*\(\s*transit_event->logger_base->clock_source\s*==\s*ClockSourceType::Tsc\s*\)", pop_[:i_conv])) and bool(re.search(
         r"transit_event->timestamp\s*=\s*_rdtsc_clock\.load\s*\(\s*std::memory_order_relaxed\s*\)\s*->\s*time_since_epoch\s*\(\s*transit_event->timestamp\s*\)\s*;", pop_))
+    # the gate is a separate `if` after the TSC block (not `else if`), for every clock source but User, only when the grace period is on
+    mg = re.search(r"(else\s+)?if\s*\(\s*\(\s*transit_event->logger_base->clock_source\s*!=\s*ClockSourceType::User\s*\)\s*&&\s*"
+                   r"\(\s*ts_now\s*!=\s*std::numeric_limits<uint64_t>::max\s*\(\s*\)\s*\)\s*\)\s*\{", pop_)
+    d["gateForNonUser"] = bool(mg)
+    d["gateAfterConv"] = bool(mg and not mg.group(1) and 0 <= i_conv < mg.start() and i_gate > mg.end() - 1
+                              and len(re.findall(r"transit_event->timestamp\s*>\s*ts_now", pop_)) == 1)
     d["gateReturnsFalse"] = bool(re.search(r"if\s*\(\s*(?:QUILL_UNLIKELY\s*\(\s*)?transit_event->timestamp\s*>\s*ts_now\s*\)?\s*\)\s*\{\s*return\s+false\s*;", pop_))
     d["lazyClock"] = bool(re.search(r"_rdtsc_clock\.store\s*\(\s*new\s+RdtscClock\s*\{\s*_options\.rdtsc_resync_interval\s*\}\s*,\s*std::memory_order_release\s*\)", pop_))
     low = func_body(bw, r"bool\s+_process_lowest_timestamp_transit_event\s*\(\s*\)\s*\{") or ""
@@ -105,7 +111,7 @@ def extract(repo, failures):
     d["defaultResyncMs"] = _int(r"std::chrono::milliseconds\s+rdtsc_resync_interval\s*=\s*std::chrono::milliseconds\s*\{\s*(\d+)\s*\}", bo, failures,
                                 "default rdtsc_resync_interval", 500)
     facts = ("attemptLoop", "ctorShape", "readOrder", "storeThenFlip", "failureDoubles", "tseShape", "safeShape", "fastAverage", "intervalInit",
-             "twoSlots", "nsPerTickConst", "convertBeforeGate", "gateReturnsFalse", "lazyClock", "popComparesStored", "idleShape",
+             "twoSlots", "nsPerTickConst", "convertBeforeGate", "gateForNonUser", "gateReturnsFalse", "lazyClock", "popComparesStored", "idleShape",
              "frontendReadsRdtsc", "rdtscIsIntrinsic")
     for k in facts:
         if not d[k]:
@@ -116,7 +122,7 @@ def extract(repo, failures):
          "  { maxAttempts := %d, convLag := %d, ctorLag1 := %d, ctorLag2 := %d, idleLag := %d," % (
              d["maxAttempts"], d["convLag"], d["ctorLag1"], d["ctorLag2"], d["idleLag"]),
          "    triggerStrict := %s, lagInclusive := %s, lagInverted := %s, writeNext := %s }" % (
-             lean_bool(d["triggerStrict"]), lean_bool(d["lagInclusive"]), lean_bool(d["lagInverted"]), lean_bool(d["writeNext"])),
+             lean_bool(d["triggerStrict"]), lean_bool(d["lagInclusive"]), lean_bool(d["lagInverted"]), lean_bool(d["writeNext"]) + ", gateAfterConv := " + lean_bool(d["gateAfterConv"])),
          "/-- memory orders of the slot/version protocol: (version load in resync, version fetch_add in resync) -/",
          'def tscOrders : String × String := ("%s", "%s")' % (d["resyncVersionLoad"], d["flipOrder"]),
          "/-- `BackendOptions::rdtsc_resync_interval` default, milliseconds -/",
